@@ -81,6 +81,31 @@ func layoutVariants(text string, thorough bool) map[string]string {
 			break
 		}
 	}
+	// the LAST line padded to an exact multiple of the reader's buffer, without a final newline
+	last := len(lines) - 1
+	for last > 0 && strings.TrimSpace(lines[last]) == "" {
+		last--
+	}
+	for _, total := range []int{4096, 8192, 4095, 4097} {
+		if len(lines[last]) < total {
+			v := append([]string(nil), lines[:last+1]...)
+			v[last] = lines[last] + strings.Repeat(" ", total-len(lines[last]))
+			out[fmt.Sprintf("lastline=%d", total)] = join(v)
+		}
+	}
+	// whitespace around the separators inside a definition (tokens are trimmed one by one)
+	tabbed := make([]string, len(lines))
+	for i, l := range lines {
+		t := strings.TrimSpace(l)
+		if strings.HasPrefix(t, "r") || strings.HasPrefix(t, "p") {
+			if k := strings.Index(l, "="); k > 0 && !strings.ContainsAny(l, "#;\\") && !strings.Contains(l, "(") {
+				tabbed[i] = l[:k] + "\t=\t " + strings.ReplaceAll(strings.TrimSpace(l[k+1:]), ",", "\t ,\t")
+				continue
+			}
+		}
+		tabbed[i] = l
+	}
+	out["tabs-around-separators"] = join(tabbed)
 	// blank / comment lines at every position that is not inside a continuation
 	for i := 0; i <= len(lines); i++ {
 		if i > 0 && isContinuation(lines[i-1]) {
@@ -168,7 +193,7 @@ func requestUniverse(csvPath string) [][]interface{} {
 }
 
 func runC08(c *Ctx) {
-	c.Rule = "every examples/*.conf plus generated model texts x the layout transformations (CRLF, padding every line, padding one line past 4 KiB on either side, blank/#/; lines at every position outside a continuation, backslash continuation split at every single blank of every definition line incl. past 4 KiB, reversed and rotated section order): the assertions (Key, Value, Tokens, ParamsTokens of r/p/g/e/m) of the real NewModelFromString are compared with the Lean mirror, and every variant with its original (same definitions) and on the example's policy with the original's decisions; arbitrary text (mutated examples, random bytes) for totality; non-trivial = a variant that differs textually from its original and loads; distinct = variant text"
+	c.Rule = "every examples/*.conf plus generated model texts x the layout transformations (CRLF, padding every line, padding one line past 4 KiB on either side, the last line padded to exactly 4096/8192 bytes without a final newline, tabs around '=' and ',' inside r/p definitions, blank/#/; lines at every position outside a continuation, backslash continuation split at every single blank of every definition line incl. past 4 KiB, reversed and rotated section order): the assertions (Key, Value, Tokens, ParamsTokens of r/p/g/e/m) of the real NewModelFromString are compared with the Lean mirror, and every variant with its original (same definitions) and on the example's policy with the original's decisions; arbitrary text (mutated examples, random bytes) for totality; non-trivial = a variant that differs textually from its original and loads; distinct = variant text"
 	files, _ := filepath.Glob("/repo/examples/*.conf")
 	sort.Strings(files)
 	texts := map[string]string{}
@@ -240,7 +265,12 @@ func runC08(c *Ctx) {
 				c.Direct("parsing a model text panics", fmt.Sprintf("file=%s variant=%s", name, k))
 				continue
 			}
-			if obs != orig {
+			same := obs == orig
+			if k == "tabs-around-separators" {
+				// the raw Value of r/p keeps the inner blanks; the definitions are the tokens
+				same = tokensOnly(obs) == tokensOnly(orig)
+			}
+			if !same {
 				c.Direct("a layout change altered the definitions", fmt.Sprintf("file=%s variant=%s\noriginal: %s\nvariant:  %s", name, k, orig, obs))
 				continue
 			}
@@ -306,4 +336,17 @@ func runC08(c *Ctx) {
 			c.Count("malformed=ok", 1)
 		}
 	}
+}
+
+// tokensOnly drops the raw Value of r/p assertions from a dump (their meaning is the token list).
+func tokensOnly(dump string) string {
+	parts := strings.Split(dump, " ")
+	for i, p := range parts {
+		f := strings.Split(p, "|")
+		if len(f) == 5 && (f[0] == "r" || f[0] == "p") {
+			f[2] = "_"
+			parts[i] = strings.Join(f, "|")
+		}
+	}
+	return strings.Join(parts, " ")
 }
